@@ -1082,9 +1082,9 @@ func (c *caseT) checkSorts(inst fp.Ord[V], trials int) {
 
 func casesPerBatch(tier string) int {
 	if tier == "thorough" {
-		return 1200
+		return 2400
 	}
-	return 600
+	return 1200
 }
 
 const deepFromArity = 10
